@@ -4,6 +4,7 @@
 -/
 import Nervus.Proofs.EngineHist
 import Nervus.Proofs.StoreRoot
+import Nervus.Proofs.IterFlush
 namespace Nervus.Storage
 open Nervus.GraphSpec (TxOp Op)
 
@@ -115,8 +116,8 @@ theorem SameView.reads (c : Cfg) {s s' : Engine} (h : SameView s s') :
   · funext n; unfold Engine.nodeLabels; rw [h.idmap]
   · funext n k; unfold Engine.nodeProp; rw [h.runs, visibleStore_congr h.store h.root h.storeRoot]
   · funext n; unfold Engine.nodeProps; rw [h.runs, h.root, visibleStore_congr h.store h.root h.storeRoot]
-  · funext n rel; unfold Engine.neighbors; rw [h.runs, h.segs]
-  · funext n rel; unfold Engine.incoming; rw [h.runs, h.segs]
+  · funext n rel; rw [neighbors_eq]; unfold Engine.neighborsFlushed; rw [h.runs, h.segs]
+  · funext n rel; rw [incoming_eq]; unfold Engine.incomingFlushed; rw [h.runs, h.segs]
   · funext e k; unfold Engine.edgeProp; rw [h.runs, visibleStore_congr h.store h.root h.storeRoot]
   · funext e; unfold Engine.edgeProps; rw [h.runs, h.root, visibleStore_congr h.store h.root h.storeRoot]
   · funext x; unfold Engine.lookupInternal; rw [h.idmap]
